@@ -141,6 +141,55 @@ def socks_constants(out):
         v = intlit(one(rf"pub const {name}\s*:\s*u8\s*=\s*([^;]+);", src, f"socks magic {name}"))
         lean = "socks" + "".join(p.capitalize() for p in name.split("_"))
         out.append(f"def {lean} : Nat := {v}")
+    # the length checks of v5::parse_udp_relay_header, in source order
+    v5 = strip_comments(read("penguin-socks/src/v5.rs"))
+    body = one(r"pub fn parse_udp_relay_header\(mut buf: Bytes\)[^{]*\{(.*?)\n\}\n", v5, "parse_udp_relay_header", re.S)
+    checks = re.findall(r"if\s+buf\.remaining\(\)\s*<\s*([^{]+?)\s*\{", body)
+    if len(checks) != 5:
+        raise Broken(f"parse_udp_relay_header: expected 5 length checks, found {len(checks)}: {checks}")
+    for n, c, coef_want in zip(["socksUdpMinHeader", "socksUdpMinV4", "socksUdpMinDomainLen", "socksUdpMinDomainAfterLen",
+                                "socksUdpMinV6"], checks, [0, 0, 0, 1, 0]):
+        k, coef = linear(c, "len")
+        if coef != coef_want:
+            raise Broken(f"{n}: unexpected form of the length check {c!r}")
+        out.append(f"def {n} : Nat := {k}")
+    # the SOCKS4a marker test of v4::read_request: `ip >> 8 == 0 && ip != 0` (DSTIP = 0.0.0.x, x != 0)
+    v4 = strip_comments(read("penguin-socks/src/v4.rs"))
+    m = re.findall(r"let rhost = if ([^{]+?)\s*\{", v4)
+    if len(m) != 1:
+        raise Broken(f"v4::read_request: expected one SOCKS4a marker test, found {len(m)}")
+    mm = re.fullmatch(r"ip\s*>>\s*(\d+)\s*==\s*0(\s*&&\s*ip\s*!=\s*0)?", m[0].strip())
+    if not mm:
+        raise Broken(f"v4::read_request: SOCKS4a marker test of unknown form: {m[0]!r}")
+    out.append(f"def socks4aMarkerShift : Nat := {int(mm.group(1))}")
+    out.append(f"def socks4aMarkerNonzero : Bool := {'true' if mm.group(2) else 'false'}")
+
+
+def lean_strs(xs):
+    return "[" + ", ".join(f'"{x}"' for x in xs) + "]"
+
+
+def enum_variants(body):
+    """Variant names of a Rust enum body (attributes and comments removed)."""
+    body = re.sub(r"#\[[^\]]*\]", "", body)
+    depth, cur, parts = 0, "", []
+    for ch in body:
+        if ch in "([{":
+            depth += 1
+        elif ch in ")]}":
+            depth -= 1
+        if ch == "," and depth == 0:
+            parts.append(cur)
+            cur = ""
+        else:
+            cur += ch
+    parts.append(cur)
+    names = []
+    for p in parts:
+        m = re.match(r"\s*(\w+)", p)
+        if m:
+            names.append(m.group(1))
+    return names
 
 
 def client_constants(out):
@@ -149,6 +198,87 @@ def client_constants(out):
             src, "client Backoff::new", re.S)
     out.append(f"def backoffInitialMs : Nat := {int(m[0])}")
     out.append(f"def backoffMult : Nat := {int(m[1])}")
+    # on_connected's main loop: does the arm that sees the multiplexor task end leave the loop (with
+    # ServerDisconnected) when the task ended with Ok(()) -- an orderly close by the server?
+    fn = one(r"async fn on_connected\((.*?)\n\}\n", src, "on_connected", re.S)
+    arm = one(r"Some\(mux_task_joinset_result\)\s*=\s*mux_task_joinset\.join_next\(\)\s*=>\s*\{(.*?)\}\s*Some\(sender\)\s*=\s*stream_command_rx\.recv\(\)",
+              fn, "on_connected mux-task arm", re.S)
+    one(r"mux_task_joinset_result\s*\.expect\(\s*\"[^\"]*\"\s*\)\s*\?\s*;", arm, "mux-task arm propagates the task's error")
+    rest = re.sub(r"mux_task_joinset_result\s*\.expect\(\s*\"[^\"]*\"\s*\)\s*\?\s*;", "", arm).strip()
+    if rest == "":
+        exits = False
+    elif re.fullmatch(r"return\s+Err\(\s*Error::ServerDisconnected\s*\)\s*;", rest):
+        exits = True
+    else:
+        raise Broken(f"on_connected mux-task arm has an unexpected shape: {rest!r}")
+    out.append(f"def muxTaskOkExits : Bool := {'true' if exits else 'false'}")
+    one(r"else\s*=>\s*return\s+Err\(\s*Error::ServerDisconnected\s*\)", fn, "on_connected else arm")
+    # where the back-off is reset / advanced in the retry loop
+    one(r"\.inspect_err\(\s*\|_\|\s*backoff\.reset\(\)\s*\)", src, "backoff.reset() on on_connected's error")
+    one(r"backoff\.reset\(\)", src, "single backoff.reset() call")
+    one(r"backoff\.advance\(\)", src, "single backoff.advance() call")
+    # variants of client::Error and penguin_mux::Error (the model's inductives must list the same)
+    enum = one(r"pub enum Error\s*\{(.*?)\n\}", src, "client::Error enum", re.S)
+    out.append("def clientErrorVariants : List String := " + lean_strs(enum_variants(enum)))
+    mux = strip_comments(read("penguin-mux/src/lib.rs"))
+    menum = one(r"pub enum Error\s*\{(.*?)\n\}", mux, "penguin_mux::Error enum", re.S)
+    out.append("def muxErrorVariants : List String := " + lean_strs(enum_variants(menum)))
+    # the retryable classification (maybe_retryable.rs)
+    mr = strip_comments(read("penguin/src/client/maybe_retryable.rs"))
+
+    def impl_body(ty):
+        return one(rf"impl MaybeRetryableError for {re.escape(ty)}\s*\{{\s*fn retryable\(&self\)\s*->\s*bool\s*\{{(.*?)\n    \}}\n\}}",
+                   mr, f"impl MaybeRetryableError for {ty}", re.S)
+    io = impl_body("std::io::Error")
+    kinds = re.findall(r"self\.kind\(\)\s*==\s*std::io::ErrorKind::(\w+)", io)
+    left = re.sub(r"self\.kind\(\)\s*==\s*std::io::ErrorKind::\w+", "", io)
+    if not kinds or re.sub(r"[\s|]", "", left) != "":
+        raise Broken(f"io::Error::retryable is not a pure ||-chain of kind tests: {left.strip()!r}")
+    out.append("def retryableIoKinds : List String := " + lean_strs(list(dict.fromkeys(kinds))))
+    pr = impl_body("tokio_tungstenite::tungstenite::error::ProtocolError")
+    m2 = re.fullmatch(r"\s*matches!\(\s*self\s*,(.*?)\)\s*", pr, re.S)
+    if not m2:
+        raise Broken("ProtocolError::retryable is not a single matches!(self, ..)")
+    pv = [v.strip() for v in m2.group(1).split("|") if v.strip()]
+    if not all(re.fullmatch(r"Self::\w+", v) for v in pv):
+        raise Broken(f"ProtocolError::retryable: unexpected pattern list {pv}")
+    out.append("def retryableWsProtocol : List String := " + lean_strs([v[6:] for v in pv]))
+
+    def arms(ty, lean, extra=None):
+        body = impl_body(ty)
+        m3 = re.fullmatch(r"\s*match self\s*\{(.*)\}\s*", body, re.S)
+        if not m3:
+            raise Broken(f"{ty}::retryable is not a single match self {{..}}")
+        direct, deleg, default = [], [], None
+        text = m3.group(1)
+        if extra:
+            text = extra(text)
+        for pat, rhs in re.findall(r"((?:Self::\w+(?:\(\w+\))?\s*\|?\s*)+|_)\s*=>\s*([^,]+),", text):
+            rhs = rhs.strip()
+            names = re.findall(r"Self::(\w+)", pat)
+            if pat.strip() == "_":
+                default = rhs
+            elif rhs == "true":
+                direct += names
+            elif rhs == "e.retryable()":
+                deleg += names
+            else:
+                raise Broken(f"{ty}::retryable: unexpected arm {pat.strip()} => {rhs}")
+        if default != "false":
+            raise Broken(f"{ty}::retryable: default arm is not `_ => false`")
+        out.append(f"def {lean}RetryableDirect : List String := " + lean_strs(direct))
+        out.append(f"def {lean}Delegating : List String := " + lean_strs(deleg))
+    arms("tokio_tungstenite::tungstenite::Error", "ws")
+
+    def mux_ws(text):
+        pat = r"Self::WebSocket\(e\)\s*=>\s*e\s*\.downcast_ref::<tokio_tungstenite::tungstenite::Error>\(\)\s*\.is_some_and\(MaybeRetryableError::retryable\)\s*,"
+        if len(re.findall(pat, text)) != 1:
+            raise Broken("penguin_mux::Error::retryable: WebSocket arm is not the tungstenite downcast")
+        return re.sub(pat, "", text)
+    arms("penguin_mux::Error", "mux", mux_ws)
+    out.append("def muxWebSocketDowncastsTungstenite : Bool := true")
+    arms("crate::tls::Error", "tls")
+    arms("super::Error", "client")
 
 
 def server_constants(out):
@@ -165,10 +295,95 @@ def server_constants(out):
         if n != 1:
             raise Broken(f"service.rs: expected exactly one routing test for {p}, found {n}")
         out.append(f'def {lean} : String := "{p}"')
+    # C14 (gate): accept-hash GUID, response statuses and fixed bodies (non-test part of service.rs only)
+    main = src.split("#[cfg(test)]")[0]
+    v = one(r'hasher\.update\(b"([0-9A-Fa-f-]{36})"\)', main, "service.rs accept-hash GUID")
+    out.append(f'def wsAcceptGuid : String := "{v}"')
+    http_status = {"NOT_FOUND": 404, "SWITCHING_PROTOCOLS": 101, "OK": 200}
+    fn_nf = one(r'fn not_found_handler\(self\).*?\n    \}', main, "service.rs not_found_handler", re.S)
+    fn_ws = one(r'async fn ws_handler\(.*?\n    \}\n', main, "service.rs ws_handler", re.S)
+    for body, lean, what in [(fn_nf, "statusNotFound", "not_found_handler status"),
+                             (fn_ws, "statusSwitchingProtocols", "ws_handler response status")]:
+        name = one(r'\.status\(StatusCode::([A-Z_]+)\)', body, what)
+        if name not in http_status:
+            raise Broken(f"{what}: unknown StatusCode::{name}")
+        out.append(f'def {lean} : Nat := {http_status[name]}')
+    v = one(r'Bytes::from_static\(b"([^"\\]*)"\)', main, "service.rs /health body")
+    out.append(f'def healthBody : String := "{v}"')
+    one(r'Bytes::from_static\(env!\("CARGO_PKG_VERSION"\)\.as_bytes\(\)\)', main, "service.rs /version body")
+    cargo = read("penguin/Cargo.toml")
+    pkg = one(r'\[package\](.*?)(?:\n\[|\Z)', cargo, "penguin/Cargo.toml [package]", re.S)
+    v = one(r'^version\s*=\s*"([^"\\]*)"', pkg, "penguin/Cargo.toml package version", re.M)
+    out.append(f'def pkgVersion : String := "{v}"')
+
+
+def tls_constants(out):
+    """C17: the shape of the TLS configuration decisions (tls/rustls.rs, tls/mod.rs, server/mod.rs,
+    client/ws_connect.rs).  Parameterisable facts become constants of the model; facts the model
+    assumes structurally are self-checks (a change reports a broken tie)."""
+    src = strip_comments(read("penguin/src/tls/rustls.rs")).split("#[cfg(test)]")[0]
+    fn = one(r"pub async fn make_client_config\(.*?\n\}\n", src, "rustls.rs make_client_config", re.S)
+    body = one(r"match \(tls_skip_verify, client_certificate\) \{(.*?)\n    \};", fn, "make_client_config verifier match", re.S)
+    parts = re.split(r"\n\s*\((true|false), (Some\(\([a-z_, ]*\)\)|None)\) =>", "\n" + body)
+    if parts[0].strip() or (len(parts) - 1) % 3 != 0:
+        raise Broken("make_client_config: cannot split the verifier match into arms")
+    arms = {}
+    for i in range(1, len(parts), 3):
+        k = (parts[i] == "true", parts[i + 1] != "None")
+        if k in arms:
+            raise Broken(f"make_client_config: duplicate match arm {k}")
+        arms[k] = parts[i + 2]
+    if len(arms) != 4:
+        raise Broken(f"make_client_config: expected 4 match arms, found {len(arms)}")
+    for (skip, cert), text in sorted(arms.items(), reverse=True):
+        empty = "with_custom_certificate_verifier(Arc::new(EmptyVerifier(" in text
+        roots = "with_root_certificates(roots)" in text
+        auth = "with_client_auth_cert(cert_chain, key_der)" in text
+        noauth = "with_no_client_auth()" in text
+        if empty == roots or auth == noauth:
+            raise Broken(f"make_client_config: arm (skip={skip}, cert={cert}) is not one verifier and one client-auth choice")
+        nm = ("Skip" if skip else "Verify") + ("Cert" if cert else "NoCert")
+        out.append(f"def tlsArm{nm}EmptyVerifier : Bool := {'true' if empty else 'false'}")
+        out.append(f"def tlsArm{nm}ClientAuth : Bool := {'true' if auth else 'false'}")
+    one(r"let roots = generate_rustls_rootcertstore\(ca_path\)\.await\?;", fn, "make_client_config roots")
+    one(r"let client_certificate = try_load_certificate\(key_path, cert_path\)\.await\?;", fn, "make_client_config client certificate")
+    one(r"if let \(Some\(key\), Some\(cert\)\) = \(tls_key, tls_cert\) \{", src, "try_load_certificate needs both paths")
+    rs = one(r"async fn generate_rustls_rootcertstore\(.*?\n\}\n", src, "generate_rustls_rootcertstore", re.S)
+    one(r"let mut roots = RootCertStore::empty\(\);\s*if let Some\(ca_path\) = custom_ca_path \{", rs,
+        "generate_rustls_rootcertstore: custom CA replaces the built-in roots")
+    sf = one(r"async fn make_server_config_from_mem\(.*?\n\}\n", src, "rustls.rs make_server_config_from_mem", re.S)
+    m = re.findall(r"if let Some\(client_ca_path\) = client_ca_path \{(.*?)\} else \{(.*?)\}", sf, re.S)
+    if len(m) != 1:
+        raise Broken("make_server_config_from_mem: client CA branch not found exactly once")
+    then, els = m[0]
+    if "WebPkiClientVerifier::builder(Arc::new(store))" not in then or "with_client_cert_verifier(verifier)" not in then:
+        raise Broken("make_server_config_from_mem: client CA branch does not build a WebPkiClientVerifier")
+    if els.strip() != "config.with_no_client_auth()":
+        raise Broken("make_server_config_from_mem: branch without client CA is not with_no_client_auth()")
+    out.append(f"def tlsClientAuthMandatory : Bool := {'false' if 'allow_unauthenticated' in then else 'true'}")
+    ev = one(r"impl ServerCertVerifier for EmptyVerifier \{(.*?)\n\}\n", src, "EmptyVerifier impl", re.S)
+    one(r"fn verify_server_cert\([^)]*\)\s*->\s*Result<ServerCertVerified, rustls::Error>\s*\{\s*Ok\(ServerCertVerified::assertion\(\)\)\s*\}",
+        ev, "EmptyVerifier::verify_server_cert accepts unconditionally")
+    mod = strip_comments(read("penguin/src/tls/mod.rs"))
+    one(r"ServerName::try_from\(server_name\.to_string\(\)\)\?;", mod, "tls_connect parses the server name")
+    n = len(re.findall(r"let new = make_server_config\(cert_path, key_path, client_ca_path\)\.await\?;\s*identity\.store\(Arc::new\(new\)\);", mod))
+    if n != 1:
+        raise Broken(f"reload_tls_identity: expected build-then-store exactly once, found {n}")
+    srv = strip_comments(read("penguin/src/server/mod.rs")).split("#[cfg(test)]")[0]
+    rl = one(r"pub async fn run_listener\(.*?\n\}\n", srv, "server run_listener", re.S)
+    one(r"tls_config\.load_full\(\)", rl, "run_listener takes the identity per accepted connection")
+    ws = strip_comments(read("penguin/src/client/ws_connect.rs"))
+    i0 = ws.find("let mut tls_server_name = host;")
+    i1 = ws.find("tls_server_name = hostname.to_str().map_err(super::Error::InvalidDomainName)?;")
+    i2 = ws.find("if let Some(tls_sni) = args.tls_server_name.as_deref() {")
+    i3 = ws.find("tls_connect(")
+    if not (0 <= i0 < i1 < i2 < i3):
+        raise Broken("ws_connect.rs: server-name choice is not URL host, then --hostname, then --tls-server-name")
+    out.append("def tlsNameOrderHostThenHostnameThenSni : Bool := true")
 
 
 SECTIONS = {"Frame": frame_constants, "Config": config_constants, "Socks": socks_constants,
-            "Client": client_constants, "Server": server_constants}
+            "Client": client_constants, "Server": server_constants, "Tls": tls_constants}
 
 
 def write_if_changed(path, text):
